@@ -39,50 +39,90 @@ theorem updLock_isDead {s s' : State} {k j v : Nat} (h : updLock s k j v = .ok s
       · cases h1
       · cases h1; rfl
 
+/-- second excluded situation: the extend phase of an update decrements a blobber's challenge value below zero
+(`adjustChallengePool`, allocation.go 812: unchecked `uint64` subtraction) -/
+def extendWraps (s : State) : Op → Prop
+  | .update k c value size ext add rem rw cc dp ds =>
+      ∃ s2 a, preExtend s k c value size ext add rem rw cc dp = .ok (s2, true) ∧ s2.allocs k = some a ∧ noWrap a.bas ds = false
+  | _ => False
+
+/-- third excluded situation: a passed challenge while `num_validators_rewarded = 0` and the validators' share is positive
+(`moveToValidators` returns before debiting the pool, challengepool.go 101) -/
+def passWithoutValidators (s : State) : Op → Prop
+  | .respPass _ _ _ _ V _ _ => s.nvr0 = true ∧ 0 < V
+  | _ => False
+
+def excluded12 (s : State) (op : Op) : Prop := replacesDead s op ∨ extendWraps s op ∨ passWithoutValidators s op
+
+theorem updBlobbers_inv12 {s s' : State} {k : Nat} {add rem : Option Nat} {rw cc dp : Nat}
+    (h : updBlobbers s k add rem rw cc dp = .ok s')
+    (hn : ∀ ri, rem = some ri → add ≠ none → isDead s ri = false) (hi : Inv12 s) : Inv12 s' := by
+  unfold updBlobbers at h
+  split at h
+  · cases h; exact hi
+  · cases h
+  · exact updAdd_inv12 h hi
+  · rename_i ai ri
+    have := hn ri rfl (by simp)
+    rw [this] at h
+    simp only [Bool.false_eq_true, if_false] at h
+    exact updReplaceAlive_inv12 h hi
+
 theorem update_inv12_partial {s s' : State} {k : Nat} {c : Caller} {value size : Nat} {ext : Bool}
     {add rem : Option Nat} {rw cc dp : Nat} {ds : List Int}
     (h : update s k c value size ext add rem rw cc dp ds = .ok s')
-    (hn : ¬ replacesDead s (.update k c value size ext add rem rw cc dp ds)) (hi : Inv12 s) : Inv12 s' := by
-  unfold update at h
+    (hn : ¬ excluded12 s (.update k c value size ext add rem rw cc dp ds)) (hi : Inv12 s) : Inv12 s' := by
+  have hn1 : ∀ ri, rem = some ri → add ≠ none → isDead s ri = false := by
+    intro ri hr ha
+    cases hd : isDead s ri with
+    | false => rfl
+    | true =>
+      exfalso; apply hn; left
+      subst hr
+      cases add with
+      | none => exact absurd rfl ha
+      | some ai => exact hd
+  have hn2 : ∀ s2 a, preExtend s k c value size ext add rem rw cc dp = .ok (s2, true) → s2.allocs k = some a → noWrap a.bas ds = true := by
+    intro s2 a hp ha
+    cases hw : noWrap a.bas ds with
+    | true => rfl
+    | false => exact absurd (Or.inr (Or.inl ⟨s2, a, hp, ha, hw⟩)) hn
+  have hpre : ∀ s2 b, preExtend s k c value size ext add rem rw cc dp = .ok (s2, b) → Inv12 s2 := by
+    intro s2 b hp
+    unfold preExtend at hp
+    split at hp
+    · cases hp
+    · split at hp
+      · split at hp
+        · cases hp
+        · dsimp only at hp
+          split at hp
+          · split at hp
+            · cases hp
+            · split at hp
+              · cases hp
+              · rename_i s1 h1; cases hp; exact updLock_inv12 h1 hi
+          · split at hp
+            · cases hp
+            · rename_i s1 h1
+              split at hp
+              · cases hp
+              · rename_i s2' h2
+                cases hp
+                refine updBlobbers_inv12 h2 ?_ (updLock_inv12 h1 hi)
+                intro ri hr ha
+                rw [updLock_isDead h1]; exact hn1 ri hr ha
+      · cases hp
+  rw [update_eq] at h
   split at h
   · cases h
-  · split at h
-    · split at h
-      · cases h
-      · dsimp only at h
-        split at h
-        · split at h
-          · cases h
-          · split at h
-            · cases h
-            · rename_i s1 h1
-              exact updExtend_inv12 h (updLock_inv12 h1 hi)
-        · split at h
-          · cases h
-          · rename_i s1 h1
-            have hi1 := updLock_inv12 h1 hi
-            split at h
-            · cases h
-            · rename_i s2 h2
-              have hi2 : Inv12 s2 := by
-                unfold updBlobbers at h2
-                split at h2
-                · cases h2; exact hi1
-                · cases h2
-                · exact updAdd_inv12 h2 hi1
-                · rename_i ai ri
-                  split at h2
-                  · rename_i hd
-                    rw [updLock_isDead h1] at hd
-                    exact absurd hd hn
-                  · exact updReplaceAlive_inv12 h2 hi1
-              split at h
-              · exact updExtend_inv12 h hi2
-              · cases h; exact hi2
-    · cases h
+  · rename_i s2 hp
+    exact updExtend_inv12 h (fun a ha => hn2 s2 a hp ha) (hpre s2 true hp)
+  · rename_i s2 hp
+    cases h; exact hpre _ false hp
 
-/-- **C12, all operations but one branch.** -/
-theorem cp_eq_sum_partial {s s' : State} {op : Op} (hi : Inv12 s) (h : stepRel s op s') (hn : ¬ replacesDead s op) :
+/-- **C12, all operations outside the three excluded situations.** -/
+theorem cp_eq_sum_partial {s s' : State} {op : Op} (hi : Inv12 s) (h : stepRel s op s') (hn : ¬ excluded12 s op) :
     Inv12 s' := by
   unfold stepRel at h
   cases op with
@@ -98,7 +138,15 @@ theorem cp_eq_sum_partial {s s' : State} {op : Op} (hi : Inv12 s) (h : stepRel s
   | newAlloc j data size value chosen => exact newAlloc_inv12 h hi
   | update k c value size ext add rem rw cc dp ds => exact update_inv12_partial h hn hi
   | commit k i size move => exact commit_inv12 h hi
-  | respPass k i D m V dp cr => exact respPass_inv12 h hi
+  | respPass k i D m V dp cr =>
+    refine respPass_inv12 h ?_ hi
+    cases hv : s.nvr0 with
+    | false => exact Or.inl rfl
+    | true =>
+      right
+      cases V with
+      | zero => rfl
+      | succ v => exact absurd (Or.inr (Or.inr ⟨hv, Nat.succ_pos v⟩)) hn
   | close fin k c X per rates => exact close_inv12 h hi
   | wpLock k j v => exact wpLock_inv12 h hi
   | rpLock j v => exact inv12_frame (rpLock_frame h) hi
@@ -106,10 +154,10 @@ theorem cp_eq_sum_partial {s s' : State} {op : Op} (hi : Inv12 s) (h : stepRel s
   | tick dt => simp only [step] at h; cases h; exact inv12_frame ⟨rfl, rfl⟩ hi
   | noop => simp only [step] at h; cases h; exact hi
 
-/-- states reachable from the initial state by admissible operations that never replace a dead blobber -/
+/-- states reachable from the initial state by admissible operations outside the excluded situations -/
 inductive ReachableNoDeadReplace : State → Prop
   | init : ReachableNoDeadReplace init
-  | step {s s' : State} {op : Op} : ReachableNoDeadReplace s → stepRel s op s' → ¬ replacesDead s op →
+  | step {s s' : State} {op : Op} : ReachableNoDeadReplace s → stepRel s op s' → ¬ excluded12 s op →
       ReachableNoDeadReplace s'
 
 theorem inv12_init : Inv12 init := by
@@ -208,14 +256,74 @@ theorem cp_eq_sum_false : ¬ (∀ (s s' : State) (op : Op), Inv12 s → stepRel 
 theorem witness_is_dead_replace : replacesDead witnessState witnessOp := by
   simp [replacesDead, witnessOp, isDead, witnessState]
 
+/-! ### negation witnesses of the other two excluded situations -/
+
+/-- extend with an adjustment of −600 for blobber 1 whose challenge value is 500: the value wraps to 2^64 − 100 -/
+def opExtendWrap : Op := .update 0 (.client 3) 0 0 true none none 0 0 0 [0, -600]
+
+theorem extend_wrap_breaks : stepRel witnessState opExtendWrap (after witnessState opExtendWrap) ∧
+    ¬ Inv12 (after witnessState opExtendWrap) ∧ extendWraps witnessState opExtendWrap := by
+  refine ⟨stepRel_after (by decide +kernel), ?_, ?_⟩
+  · intro hbad
+    have h1 : (after witnessState opExtendWrap).cps 0 = some 400 := by decide +kernel
+    have h2 : ((after witnessState opExtendWrap).allocs 0).map (fun a => sumCv a.bas) = some (2 ^ 64 + 400) := by decide +kernel
+    cases ha : (after witnessState opExtendWrap).allocs 0 with
+    | none => rw [ha] at h2; simp at h2
+    | some a =>
+      rw [ha] at h2
+      simp only [Option.map_some, Option.some.injEq] at h2
+      have := hbad 0 a ha
+      rw [h1, h2] at this
+      simp at this
+  · have hp : (match preExtend witnessState 0 (.client 3) 0 0 true none none 0 0 0 with
+        | .ok (s2, true) => (match s2.allocs 0 with
+            | some a => !noWrap a.bas [0, -600]
+            | none => false)
+        | _ => false) = true := by decide +kernel
+    cases hpe : preExtend witnessState 0 (.client 3) 0 0 true none none 0 0 0 with
+    | error e => rw [hpe] at hp; cases hp
+    | ok r =>
+      obtain ⟨s2, b⟩ := r
+      rw [hpe] at hp
+      cases b with
+      | false => cases hp
+      | true =>
+        simp only at hp
+        cases ha : s2.allocs 0 with
+        | none => rw [ha] at hp; cases hp
+        | some a =>
+          rw [ha] at hp
+          exact ⟨s2, a, hpe, ha, by simpa using hp⟩
+
+/-- a passed challenge (value reduced by 100, validators' share 10) with `num_validators_rewarded = 0`: the pool keeps
+the validators' 10 -/
+def opPassNoValidators : Op := .respPass 0 0 100 0 10 0 []
+
+theorem pass_without_validators_breaks :
+    stepRel { witnessState with nvr0 := true } opPassNoValidators (after { witnessState with nvr0 := true } opPassNoValidators) ∧
+    ¬ Inv12 (after { witnessState with nvr0 := true } opPassNoValidators) ∧
+    passWithoutValidators { witnessState with nvr0 := true } opPassNoValidators := by
+  refine ⟨stepRel_after (by decide +kernel), ?_, ⟨rfl, by decide⟩⟩
+  intro hbad
+  have h1 : (after { witnessState with nvr0 := true } opPassNoValidators).cps 0 = some 910 := by decide +kernel
+  have h2 : ((after { witnessState with nvr0 := true } opPassNoValidators).allocs 0).map (fun a => sumCv a.bas) = some 900 := by decide +kernel
+  cases ha : (after { witnessState with nvr0 := true } opPassNoValidators).allocs 0 with
+  | none => rw [ha] at h2; simp at h2
+  | some a =>
+    rw [ha] at h2
+    simp only [Option.map_some, Option.some.injEq] at h2
+    have := hbad 0 a ha
+    rw [h1, h2] at this
+    simp at this
+
 /-! ### non-vacuity -/
 
 /-- the invariant's hypothesis is met by a state with a funded, partly used allocation, and a non-trivial operation
 (an upload of 64 tokens' worth to blobber 0) is admissible in it -/
-example : Inv12 witnessState ∧ ∃ s', stepRel witnessState (.commit 0 0 10 64) s' ∧ ¬ replacesDead witnessState (.commit 0 0 10 64) := by
+example : Inv12 witnessState ∧ ∃ s', stepRel witnessState (.commit 0 0 10 64) s' ∧ ¬ excluded12 witnessState (.commit 0 0 10 64) := by
   refine ⟨witness_inv, ?_⟩
   unfold stepRel step
-  simp [commit, witnessState, init, findBA, replacesDead]
+  simp [commit, witnessState, init, findBA, replacesDead, excluded12, extendWraps, passWithoutValidators]
 
 /-- a close is admissible in the witness state after expiry (owner finalizes; nothing paid to blobbers) -/
 example : ∃ s', stepRel { witnessState with now := init.now + TU, sps := fun i => if i < 3 then some ⟨offer 2048 10, 20000000000, 0, false⟩ else none }
